@@ -10,6 +10,13 @@ show  a handful of fitted problems (XYFit linear / exponential / very large and 
       uncertainty source, after parameters were displaced by hand, with asymmetric uncertainties) x both display orders:
       fit.report(stream), the preface comment written by fit.to_file() and fit.get_result_dict() are parsed back and every
       number is compared with what the public properties of the fit return at that moment.
+      Further display dimensions: (a) the dictionary RETURNED by do_fit() / do_fit(asymmetric_parameter_errors=True) is a display
+      of its own, judged at every fit of every sequence, incl. the sequences  results loaded (from_file / load_state, with and
+      without stored asymmetric uncertainties) -> problem changed -> fitted again;  (b) who asks for the asymmetric uncertainties
+      first: an earlier property access (showA), do_fit (fitA) or the display itself (showA1: each of report / preface / dict
+      as the first requester, the others as repeated requests);  (c) the displayed object: multi-fits (shared parameters,
+      mixed member types, shared uncertainty source, single member) are displayed themselves (report, result dictionary, return
+      value of do_fit) and so is each of their members (report, preface, result dictionary) after operations on the multi-fit.
 """
 import contextlib
 import io
@@ -27,7 +34,7 @@ from kmc.core import JobResult
 PROPERTY = "C17"
 RULE = (
     "fmt cases = (uncertainty or asymmetric pair, value, n_significant_digits, plain/LaTeX, fixed flag), complete product of the "
-    "alphabets; show cases = (problem, backend, fixed subset, moment sequence, display order); non-trivial = the string contains "
+    "alphabets; show cases = (problem incl. multi-fits, backend, fixed subset, moment sequence incl. who requests the asymmetric uncertainties first and reload -> change -> refit, display order) x displayed object (fit / multi-fit / each member) x display (report, preface, result dictionary, return value of do_fit); non-trivial = the string contains "
     "an uncertainty that had to be rounded (fmt) / the fit was performed and at least one parameter line with an uncertainty, "
     "one off-diagonal correlation and the cost were compared (show)"
 )
@@ -38,6 +45,9 @@ ASSUMPTIONS = [
     "ParameterFormatter objects always carry a symmetric uncertainty (as every formatter owned by a fit does); asymmetric_error without error is not generated",
     "report / preface numbers are held to 'within half a unit of their own last displayed digit' (%g strips trailing zeros, which makes this lenient, never stricter than the statement); parameter lines of the report are additionally held to the value +/- uncertainty rule with 2 significant digits; result dictionary entries must equal the properties (relative 1e-12)",
     "a parameter whose fitted value is exactly 0 is not generated (the compact preface takes log10 of it)",
+    "a display that lists asymmetric uncertainties although the harness did not ask for them is held to fit.asymmetric_parameter_errors read right afterwards (the public accessor of what the fit holds)",
+    "the profile scan behind the asymmetric uncertainties may move the minimizer state slightly (observed up to 2e-3 relative on uncertainties); when the judged call itself runs that scan for the first time (display as first requester, do_fit(asymmetric_parameter_errors=True)) every symmetric number must be faithful to the state held just before the scan or to the state held after it (before: read from the same object, for do_fit from an identically built twin fitted without the scan), the asymmetric ones to the state after it; the state-unchanged check of that one call is reduced to names / did_fit / ndf",
+    "MultiFit has no file representation (to_file raises TypeError by design): multi-fits are displayed through report, get_result_dict and the return value of do_fit, their members through all three displays; members are asked for asymmetric uncertainties only after the multi-fit holds them (a member asked first would scan its own cost function alone, a different quantity)",
 ]
 
 MANT = ["1", "1.04", "1.05", "1.49", "1.5", "2.5", "4.99", "5", "9.49", "9.5", "9.94", "9.95", "9.96", "9.99", "9.995", "9.996", "9.9996"]
@@ -244,7 +254,23 @@ def idx_model(a=1.0, b=1.0):
     return np.ones(10) * a + (np.linspace(-1.0, 1.5, 10) ** 2 + 0.3 * np.arange(10)) * b
 
 
+def expo_c(x, A0=1.0, k=0.3, c=0.5):
+    return A0 * np.exp(k * x) + c
+
+
+def lin_d(x, a=1.0, d=0.5):
+    return a * x + d
+
+
 PROBLEMS = ["xy-lin", "xy-expo", "xy-big", "xy-tiny", "indexed", "hist"]
+# multi-fits as displayed objects: two strongly non-linear members sharing two of three parameters (asymmetric uncertainties differ
+# visibly from the symmetric ones), members of different type with disjoint parameters (chi2 + negative log-likelihood), two members
+# with a shared parameter and an uncertainty source shared between them, a multi-fit of a single member
+MULTI_PROBLEMS = ["multi-expo", "multi-mixed", "multi-shared", "multi-one"]
+
+
+def is_multi(problem):
+    return problem in MULTI_PROBLEMS
 
 
 def build_problem(problem, backend, v):
@@ -290,9 +316,53 @@ def build_problem(problem, backend, v):
             def second(f):
                 f.data = kafe2.HistContainer(n_bins=6, bin_range=(0.0, 6.0), fill_data=list(_HIST_ENTRIES) + _HIST_EXTRA[v] + [2.45, 3.55, 3.15, 1.95])
 
+        elif problem == "multi-expo":
+            truth = [1.1 + 0.1 * v, 0.9 - 0.05 * v, 1.5]
+            xs = _X[:7] * 0.4 + 0.05 * v
+            f0 = kafe2.XYFit([xs, expo(xs, *truth[:2]) + 0.5 * _NOISE[:7]], expo, **kw)
+            f0.add_error("y", 0.5, name="ey0")
+            f1 = kafe2.XYFit([xs, expo_c(xs, *truth) + 0.7 * _NOISE[::-1][:7]], expo_c, **kw)
+            f1.add_error("y", 0.7, name="ey1")
+            fit = kafe2.MultiFit([f0, f1], **kw)
+            second = lambda f: f.fits[0].add_error("y", 0.3, name="e2")  # noqa: E731  (an operation issued on a member)
+        elif problem == "multi-mixed":
+            ey = 0.30 + 0.05 * v
+            f0 = kafe2.XYFit([x, lin(x, 0.9 + 0.2 * v, 0.7 - 0.3 * v) + ey * _NOISE], lin, **kw)
+            f0.add_error("y", ey, name="ey0")
+            f1 = kafe2.HistFit(kafe2.HistContainer(n_bins=6, bin_range=(0.0, 6.0), fill_data=list(_HIST_ENTRIES) + _HIST_EXTRA[v]), normal_density, **kw)
+            fit = kafe2.MultiFit([f0, f1], **kw)
+            truth = [0.9 + 0.2 * v, 0.7 - 0.3 * v, 2.9, 1.4]
+            second = lambda f: f.add_error(0.8 * ey, fits=0, axis="y", name="e2")  # noqa: E731
+        elif problem == "multi-shared":
+            truth = [0.9 + 0.2 * v, 0.7 - 0.3 * v, -0.4 + 0.1 * v]
+            ey = 0.30 + 0.05 * v
+            f0 = kafe2.XYFit([x, lin(x, truth[0], truth[1]) + ey * _NOISE], lin, **kw)
+            f0.add_error("y", ey, name="ey0")
+            f1 = kafe2.XYFit([x + 0.25, lin_d(x + 0.25, truth[0], truth[2]) + 1.2 * ey * _NOISE[::-1]], lin_d, **kw)
+            f1.add_error("y", 1.2 * ey, name="ey1")
+            fit = kafe2.MultiFit([f0, f1], **kw)
+            fit.add_error(0.5 * ey, fits="all", axis="y", correlation=1.0, name="shared")
+            second = lambda f: f.add_error(0.6 * ey, fits="all", axis="y", name="e2")  # noqa: E731
+        elif problem == "multi-one":
+            truth = [1.4 + 0.3 * v, 0.8 - 0.1 * v]
+            ey = 0.25 + 0.05 * v
+            f0 = kafe2.IndexedFit(idx_model(*truth) + ey * _NOISE, idx_model, **kw)
+            f0.add_error(ey, name="ey0")
+            fit = kafe2.MultiFit([f0], **kw)
+            second = lambda f: f.fits[0].add_error(0.7 * ey, name="e2")  # noqa: E731
         else:
             raise ValueError(problem)
     return fit, dict(names=list(fit.parameter_names), truth=truth, second=second)
+
+
+ALL_DISPLAYS = ("report", "preface", "dict")
+
+
+def displayed_objects(fit):
+    """(label, object, available displays): the fit itself; for a multi-fit the multi-fit (no file representation) and every member."""
+    if type(fit).__name__ == "MultiFit":
+        return [("M", fit, ("report", "dict"))] + [("m%d" % i, f, ALL_DISPLAYS) for i, f in enumerate(fit.fits)]
+    return [("", fit, ALL_DISPLAYS)]
 
 
 SEQUENCES = {
@@ -304,8 +374,20 @@ SEQUENCES = {
     "fit-show-asym-show": ["fit", "show", "showA", "show"],
     "fit-reload-show": ["fit", "reload", "show"],  # the fit restored from its own file, displayed without another do_fit
     "fit-loadstate-show": ["fit", "loadstate", "show"],
+    # who asks for the asymmetric uncertainties first: the display itself (showA1) / do_fit (fitA); "showA" = an earlier property access
+    "fit-asymfirst": ["fit", "showA1"],
+    "fit-asymfirst-show": ["fit", "showA1", "show", "showA"],
+    "fitA-show": ["fitA", "showA"],
+    "fitA-refit": ["fitA", "second", "fit", "show"],  # asymmetric uncertainties of a superseded minimum must not be listed
+    # results loaded -> problem changed -> fitted again: the return value of that do_fit and the displays after it
+    "fit-reload-refit": ["fit", "reload", "second", "fit", "show"],
+    "fit-loadstate-refit": ["fit", "loadstate", "second", "fit", "show"],
+    "fitA-reload-refit": ["fitA", "reload", "second", "fit", "show"],  # the file carries asymmetric uncertainties as well
+    "fitA-loadstate-refit": ["fitA", "loadstate", "second", "fit", "show"],
+    "fit-reload-refitA": ["fit", "reload", "second", "fitA"],
 }
-ORDERS = {"rpd": ["report", "preface", "dict"], "dpr": ["dict", "preface", "report"]}
+ASYM_STEPS = ("showA", "showA1", "fitA")
+ORDERS = {"rpd": ["report", "preface", "dict"], "dpr": ["dict", "preface", "report"], "prd": ["preface", "report", "dict"]}
 
 
 def held(fit, asym=False):
@@ -346,6 +428,16 @@ def _same(a, b):
     return bool(np.all((np.abs(x - y) <= 1e-9 * scale) | ((x != x) & (y != y))))
 
 
+def to_plain(x):
+    if isinstance(x, dict):
+        return {str(k): to_plain(t) for k, t in x.items()}
+    if isinstance(x, (list, tuple)):
+        return [to_plain(t) for t in x]
+    if isinstance(x, (np.ndarray, np.generic)):
+        return x.tolist()
+    return x
+
+
 class Shower(object):
     """Runs one display on the real fit and judges it against held values."""
 
@@ -379,6 +471,25 @@ class Shower(object):
         if what == "preface":
             return self.judge_preface(shown, h, asym_known)
         return self.judge_dict(shown, h, asym_known)
+
+    def judge_either(self, what, shown, h_before, h_after, asym_known):
+        """The judged call itself ran the profile scan for the first time: a number is wrong only if it is faithful neither to the
+        state held before the scan nor to the state held after it (asymmetric uncertainties: always the ones held after it)."""
+        post = self.judge(what, shown, h_after, True, asym_known)
+        if not post:
+            return []
+        pre = {(o, repr(a)) for o, _, a in self.judge(what, shown, dict(h_before, asym=h_after.get("asym")), True, asym_known)}
+        return [(o, e, a) for o, e, a in post if (o, repr(a)) in pre]
+
+    def asym_now(self):
+        """The asymmetric uncertainties the fit holds, read through the public property (for displays that list them unasked)."""
+        try:
+            with warnings.catch_warnings():
+                warnings.simplefilter("ignore")
+                a = self.fit.asymmetric_parameter_errors
+            return None if a is None else np.array(a, dtype=float).tolist()
+        except Exception as e:  # noqa: BLE001
+            return "asymmetric_parameter_errors raised " + type(e).__name__
 
     def _num(self, bad, obs, tok, x):
         try:
@@ -487,6 +598,11 @@ class Shower(object):
         if r["ndf"] is None or r["ndf"].strip() != str(h["ndf"]):
             bad.append(("preface.ndf", h["ndf"], r["ndf"]))
         with_asym = r["header"] is not None and "Par err down" in r["header"]
+        if asym_known is None and with_asym:
+            asym_known = self.asym_now()
+            if isinstance(asym_known, str) or asym_known is None:
+                bad.append(("preface.asymmetric_columns", "no asymmetric columns (%s)" % (asym_known,), r["header"]))
+                asym_known = None
         if asym_known is not None and not with_asym:
             bad.append(("preface.asymmetric_columns", "columns for the asymmetric uncertainties", r["header"]))
         if [row[0] for row in r["rows"]] != h["names"]:
@@ -534,7 +650,7 @@ class Shower(object):
             except Exception:  # noqa: BLE001
                 ok = False
             if not ok:
-                bad.append(("dict." + obs, exp, act if not isinstance(act, np.ndarray) else act.tolist()))
+                bad.append(("dict." + obs, exp, to_plain(act)))
 
         if bool(d.get("did_fit")) != h["did_fit"]:
             bad.append(("dict.did_fit", h["did_fit"], d.get("did_fit")))
@@ -559,6 +675,11 @@ class Shower(object):
             bad.append(("dict.parameter_errors", None, pe))
         eq("parameter_cov_mat", d.get("parameter_cov_mat"), h["cov"])
         eq("parameter_cor_mat", d.get("parameter_cor_mat"), h["cor"])
+        if asym_known is None and d.get("asymmetric_parameter_errors") is not None:
+            asym_known = self.asym_now()
+            if isinstance(asym_known, str) or asym_known is None:
+                bad.append(("dict.asymmetric_parameter_errors", asym_known, to_plain(d.get("asymmetric_parameter_errors"))))
+                asym_known = None
         if asym_known is not None:
             ad = d.get("asymmetric_parameter_errors")
             if ad is None or [str(k) for k in ad.keys()] != h["names"]:
@@ -568,86 +689,188 @@ class Shower(object):
         return bad
 
 
+def apply_op(step, fit, info, fixed, tmpdir, stats=None):
+    """One state-changing operation of a sequence on the real API -> (the fit to go on with (a new object after 'reload'), what the
+    operation returned)."""
+    n, ret = 1, None
+    if step in ("fit", "fitA"):
+        with contextlib.redirect_stdout(io.StringIO()):  # the minimizer base class prints a warning on infinite cost values
+            ret = fit.do_fit(asymmetric_parameter_errors=True) if step == "fitA" else fit.do_fit()
+    elif step == "second":
+        info["second"](fit)
+    elif step == "reload":
+        _path = os.path.join(tmpdir, "reload.yml")
+        fit.to_file(_path)
+        fit = type(fit).from_file(_path)
+        n = 2
+    elif step == "loadstate":
+        _path = os.path.join(tmpdir, "state.yml")
+        fit.save_state(_path)
+        fit.load_state(_path)
+        n = 2
+    elif step == "displace":
+        free = [n_ for n_ in info["names"] if n_ not in fixed]
+        cur = dict(zip(info["names"], fit.parameter_values))
+        fit.set_parameter_values(**{n_: float(cur[n_]) * 1.07 + 0.01 * abs(float(cur[n_])) for n_ in free})
+    else:
+        raise ValueError(step)
+    if stats is not None:
+        stats["ops"] += n
+    return fit, ret
+
+
+OPS = ("fit", "fitA", "second", "reload", "loadstate", "displace")
+
+
+def start(problem, backend, v, fix, stats=None):
+    fit, info = build_problem(problem, backend, v)
+    fixed = []
+    with warnings.catch_warnings():
+        warnings.simplefilter("ignore")
+        if fix:
+            pname = info["names"][-1]
+            fit.fix_parameter(pname, info["truth"][-1])
+            fixed = [pname]
+            if stats is not None:
+                stats["ops"] += 1
+    return fit, info, fixed
+
+
+def twin_state(problem, backend, v, fix, steps, tmpdir):
+    """What an identically built fit holds after the same operations when the last one, do_fit(asymmetric_parameter_errors=True), is
+    replaced by a plain do_fit(): the state at the moment the returned dictionary was filled, before the profile scan."""
+    twin_dir = tempfile.mkdtemp(prefix="twin_", dir=tmpdir)
+    fit, info, fixed = start(problem, backend, v, fix)
+    with warnings.catch_warnings():
+        warnings.simplefilter("ignore")
+        for step in steps[:-1]:
+            assert step in OPS, "do_fit(asymmetric_parameter_errors=True) after a display step is not generated"
+            fit, _ = apply_op(step, fit, info, fixed, twin_dir)
+        fit, _ = apply_op("fit", fit, info, fixed, twin_dir)
+    return held(fit, asym=False)
+
+
+def _asym_visible(text):
+    """Number of parameter lines of a report whose upper and lower uncertainty are displayed differently."""
+    n = 0
+    try:
+        for _, rest in P.parse_report(text)["params"]:
+            try:
+                q = P.parse_pm(rest, False)
+            except ValueError:
+                continue
+            if q["kind"] == "asym" and q["u"].value != q["d"].value:
+                n += 1
+    except ValueError:
+        pass
+    return n
+
+
 def run_show_case(problem, backend, v, fix, seqname, order, collect=None):
     """Execute one (problem, backend, fixed, sequence, display order) history on the real API.
     -> (list of (step index, display, observable, expected, actual, mode), stats dict)"""
     tmpdir = tempfile.mkdtemp(prefix="kmc_c17_")
-    stats = dict(displays=0, numbers=0, fitted_displays=0, ops=0)
+    stats = dict(displays=0, numbers=0, fitted_displays=0, ops=0, returned=0, returned_loaded=0, first_requests=0, asym_visible=0, multi_displays=0, member_displays=0, first_by={})
     out = []
+    steps = SEQUENCES[seqname]
     try:
-        fit, info = build_problem(problem, backend, v)
-        fixed = []
-        with warnings.catch_warnings():
-            warnings.simplefilter("ignore")
-            if fix:
-                pname = info["names"][-1]
-                fit.fix_parameter(pname, info["truth"][-1])
-                fixed = [pname]
-                stats["ops"] += 1
-        sh = Shower(fit, fixed, tmpdir)
-        asym_known = None
-        for si, step in enumerate(SEQUENCES[seqname]):
-            with warnings.catch_warnings():
-                warnings.simplefilter("ignore")
+        fit, info, fixed = start(problem, backend, v, fix, stats)
+        objs = displayed_objects(fit)
+        showers = dict((lab, Shower(o, fixed, tmpdir)) for lab, o, _ in objs)
+        known = dict((lab, None) for lab, _, _ in objs)  # asymmetric uncertainties an object is known to hold
+        loaded = False  # the fit carries results read from a file
+        for si, step in enumerate(steps):
+            if step in OPS:
+                with warnings.catch_warnings():
+                    warnings.simplefilter("ignore")
+                    try:
+                        fit, ret = apply_op(step, fit, info, fixed, tmpdir, stats)
+                    except Exception as e:  # noqa: BLE001
+                        out.append((si, step, "op:" + step, "no exception", type(e).__name__ + ": " + str(e)[:120], "exception:" + type(e).__name__))
+                        return out, stats
+                if step == "reload":
+                    objs = displayed_objects(fit)
+                    showers = dict((lab, Shower(o, fixed, tmpdir)) for lab, o, _ in objs)
+                known = dict((lab, None) for lab, _, _ in objs)
+                if step in ("reload", "loadstate"):
+                    loaded = True
+                if step not in ("fit", "fitA"):
+                    continue
+                # the dictionary returned by do_fit is a display of the state the fit holds when do_fit returns
+                top = objs[0][0]
+                what = (top + "." if top else "") + "do_fit"
                 try:
-                    if step == "fit":
-                        with contextlib.redirect_stdout(io.StringIO()):  # the minimizer base class prints a warning on infinite cost values
-                            fit.do_fit()
-                        asym_known = None
-                        stats["ops"] += 1
-                        continue
-                    if step == "second":
-                        info["second"](fit)
-                        asym_known = None
-                        stats["ops"] += 1
-                        continue
-                    if step == "reload":
-                        _path = os.path.join(tmpdir, "reload.yml")
-                        fit.to_file(_path)
-                        fit = type(fit).from_file(_path)
-                        sh = Shower(fit, fixed, tmpdir)
-                        asym_known = None
-                        stats["ops"] += 2
-                        continue
-                    if step == "loadstate":
-                        _path = os.path.join(tmpdir, "state.yml")
-                        fit.save_state(_path)
-                        fit.load_state(_path)
-                        asym_known = None
-                        stats["ops"] += 2
-                        continue
-                    if step == "displace":
-                        free = [n for n in info["names"] if n not in fixed]
-                        cur = dict(zip(info["names"], fit.parameter_values))
-                        fit.set_parameter_values(**{n: float(cur[n]) * 1.07 + 0.01 * abs(float(cur[n])) for n in free})
-                        asym_known = None
-                        stats["ops"] += 1
-                        continue
-                except Exception as e:  # noqa: BLE001
-                    out.append((si, step, "op:" + step, "no exception", type(e).__name__ + ": " + str(e)[:120], "exception:" + type(e).__name__))
-                    return out, stats
-            asym = step == "showA"
-            for what in ORDERS[order]:
-                try:
-                    before = held(fit, asym=asym)
-                    if asym:
-                        asym_known = before["asym"]
-                    shown = sh.show(what, asym)
-                    after = held(fit, asym=False)
+                    after = held(fit, asym=step == "fitA")
+                    if step == "fitA":
+                        known[top] = after["asym"]
+                        bad = showers[top].judge_dict(ret, after, known[top])
+                        if bad:
+                            pre = twin_state(problem, backend, v, fix, steps[: si + 1], tmpdir)
+                            keys = {(o, repr(a)) for o, _, a in showers[top].judge_dict(ret, pre, known[top])}
+                            bad = [(o, e, a) for o, e, a in bad if (o, repr(a)) in keys]
+                    else:
+                        bad = showers[top].judge_dict(ret, after, None)
                 except Exception as e:  # noqa: BLE001
                     out.append((si, what, what, "no exception", type(e).__name__ + ": " + str(e)[:120], "exception:" + type(e).__name__))
                     continue
                 stats["displays"] += 1
-                stats["ops"] += 1
-                stats["fitted_displays"] += 1 if before["did_fit"] else 0
-                stats["numbers"] += 2 * len(before["names"]) + (len(before["names"]) ** 2 if before["did_fit"] else 0) + 3
+                stats["returned"] += 1
+                stats["returned_loaded"] += 1 if loaded else 0
+                stats["fitted_displays"] += 1
+                stats["numbers"] += 2 * len(after["names"]) + len(after["names"]) ** 2 + 3
+                loaded = False
                 if collect is not None:
-                    collect.append((si, what, shown if isinstance(shown, str) else "dict"))
-                for o, e, a in sh.judge(what, shown, before, asym, asym_known):
+                    collect.append((si, what, "dict"))
+                for o, e, a in bad:
                     out.append((si, what, o, e, a, "wrong-value"))
-                for key in ("values", "errors", "cor", "cost", "gof", "ndf", "prob", "did_fit", "names"):
-                    if not _same(before[key], after[key]):
-                        out.append((si, what, "state." + key, before[key], after[key], "state-changed"))
+                continue
+            asym = step != "show"
+            first = step == "showA1"  # the first display of this step is the first to ask for the asymmetric uncertainties
+            # in asymmetric steps the multi-fit is asked before its members (see ASSUMPTIONS)
+            for lab, obj, avail in objs if (asym or order != "dpr") else objs[::-1]:
+                sh = showers[lab]
+                for disp in ORDERS[order]:
+                    if disp not in avail:
+                        continue
+                    what = (lab + "." if lab else "") + disp
+                    try:
+                        if first:
+                            before = held(obj, asym=False)
+                            shown = sh.show(disp, True)
+                            after = held(obj, asym=True)
+                            known[lab] = after["asym"]
+                            bad = sh.judge_either(disp, shown, before, after, known[lab])
+                            same_keys = ("ndf", "did_fit", "names")
+                            stats["first_requests"] += 1
+                            stats["first_by"][what] = stats["first_by"].get(what, 0) + 1
+                        else:
+                            before = held(obj, asym=asym)
+                            if asym:
+                                known[lab] = before["asym"]
+                            shown = sh.show(disp, asym)
+                            after = held(obj, asym=False)
+                            bad = sh.judge(disp, shown, before, asym, known[lab])
+                            same_keys = ("values", "errors", "cor", "cost", "gof", "ndf", "prob", "did_fit", "names")
+                    except Exception as e:  # noqa: BLE001
+                        out.append((si, what, what, "no exception", type(e).__name__ + ": " + str(e)[:120], "exception:" + type(e).__name__))
+                        first = False
+                        continue
+                    first = False
+                    stats["displays"] += 1
+                    stats["ops"] += 1
+                    stats["fitted_displays"] += 1 if before["did_fit"] else 0
+                    stats["multi_displays"] += 1 if lab == "M" else 0
+                    stats["member_displays"] += 1 if lab.startswith("m") else 0
+                    stats["numbers"] += 2 * len(before["names"]) + (len(before["names"]) ** 2 if before["did_fit"] else 0) + 3
+                    if asym and disp == "report":
+                        stats["asym_visible"] += _asym_visible(shown)
+                    if collect is not None:
+                        collect.append((si, what, shown if isinstance(shown, str) else "dict"))
+                    for o, e, a in bad:
+                        out.append((si, what, o, e, a, "wrong-value"))
+                    for key in same_keys:
+                        if not _same(before[key], after[key]):
+                            out.append((si, what, "state." + key, before[key], after[key], "state-changed"))
         return out, stats
     except Exception as e:  # noqa: BLE001
         out.append((-1, "build", "op:construct", "no exception", type(e).__name__ + ": " + str(e)[:120], "exception:" + type(e).__name__))
@@ -657,38 +880,93 @@ def run_show_case(problem, backend, v, fix, seqname, order, collect=None):
 
 
 def seq_names(tier):
-    return ["unfitted", "fit", "fit-show-refit", "fit-displace", "fit-asym", "fit-reload-show", "fit-loadstate-show"] + (["fit-show-asym-show"] if tier == "thorough" else [])
+    return [
+        "unfitted",
+        "fit",
+        "fit-show-refit",
+        "fit-displace",
+        "fit-asym",
+        "fit-reload-show",
+        "fit-loadstate-show",
+        "fit-asymfirst",
+        "fitA-show",
+        "fitA-refit",
+        "fit-reload-refit",
+        "fit-loadstate-refit",
+        "fitA-reload-refit",
+        "fitA-loadstate-refit",
+    ] + (["fit-show-asym-show", "fit-asymfirst-show", "fit-reload-refitA"] if tier == "thorough" else [])
+
+
+# scipy computes asymmetric uncertainties in > 1 s per single fit and > 5 s per multi-fit: the quick tier runs the sequences that
+# need them with scipy on the problems / sequences listed here (iminuit: everything), the thorough tier runs all of them
+QUICK_SCIPY_ASYM = {
+    "xy-lin": ("fit-asym", "fit-asymfirst", "fitA-reload-refit"),
+    "hist": ("fit-asym", "fit-asymfirst"),
+    "multi-one": ("fit-asymfirst",),
+}
+
+
+# sequences whose judged displays depend on the display order; in the others the new element is the return value of do_fit, which no
+# display precedes: the quick tier runs those in one order (alternating), the thorough tier in both
+ORDER_SENSITIVE = ("unfitted", "fit", "fit-show-refit", "fit-displace", "fit-asym", "fit-reload-show", "fit-loadstate-show", "fit-asymfirst", "fit-show-asym-show", "fit-asymfirst-show")
+QUICK_SCIPY_MULTI = ("multi-expo", "multi-one")
+
+
+def cases(problem, backend, fix, tier):
+    """(sequence, display order) pairs of one job."""
+    k = 0
+    for seqname in seq_names(tier):
+        steps = SEQUENCES[seqname]
+        if is_multi(problem) and "reload" in steps:
+            continue  # a multi-fit has no file representation
+        if backend == "scipy" and tier == "quick" and any(t in ASYM_STEPS for t in steps) and seqname not in QUICK_SCIPY_ASYM.get(problem, ()):
+            continue
+        if seqname not in ORDER_SENSITIVE and tier == "quick":
+            k += 1
+            orders = ("rpd", "dpr")[(k + int(bool(fix))) % 2 :][:1]
+        elif "showA1" in steps and not is_multi(problem):
+            orders = ("rpd", "dpr", "prd")  # every display once as the first requester of the asymmetric uncertainties
+        else:
+            orders = ("rpd", "dpr")  # (a multi-fit has two displays)
+        for order in orders:
+            yield seqname, order
 
 
 def run_show(res, problem, backend, v, fix, tier):
-    for seqname in seq_names(tier):
-        if backend == "scipy" and tier == "quick" and seqname == "fit-asym" and problem not in ("xy-lin", "hist"):
-            continue  # scipy asymmetric uncertainties take > 1 s per problem: two problems in the quick tier, all in thorough
-        for order in ORDERS:
-            bad, stats = run_show_case(problem, backend, v, fix, seqname, order)
-            res.executions += 1
-            res.transitions += stats["ops"]
-            res.evaluations += stats["numbers"]
-            key = (problem, backend, v, fix, seqname, order)
-            res.state(key)
-            if stats["fitted_displays"]:
-                res.nontriv(key)
-            res.observe((key, stats["displays"], [(b[0], b[1], b[2]) for b in bad]))
-            res.facts["show:%s" % problem] += 1
-            res.facts["show-backend:%s" % backend] += 1
-            res.facts["show-fixed:%s" % bool(fix)] += 1
-            res.facts["displays"] += stats["displays"]
-            res.facts["fitted-displays"] += stats["fitted_displays"]
-            res.outcomes[("show", problem, backend, "fixed" if fix else "free", seqname, "MISMATCH" if bad else "ok")] += 1
-            hist = dict(kind="show", problem=problem, backend=backend, v=v, fix=bool(fix), sequence=seqname, order=order)
-            seen = set()
-            for si, what, obs, exp, act, mode in bad:
-                if (what, obs) in seen:
-                    continue
-                seen.add((what, obs))
-                sig = "show|%s|%s|%s|%s|%s" % (problem, backend, "fixed" if fix else "free", ";".join(SEQUENCES[seqname][: si + 1]), what)
-                res.violation(sig, hist, obs, exp, act, mode, extra=dict(step=si, display=what))
-    res.sample(dict(kind="show", problem=problem, backend=backend, valuation=v, fixed_last_parameter=bool(fix), sequences=seq_names(tier), orders=list(ORDERS)))
+    for seqname, order in cases(problem, backend, fix, tier):
+        bad, stats = run_show_case(problem, backend, v, fix, seqname, order)
+        res.executions += 1
+        res.transitions += stats["ops"]
+        res.evaluations += stats["numbers"]
+        key = (problem, backend, v, fix, seqname, order)
+        res.state(key)
+        if stats["fitted_displays"]:
+            res.nontriv(key)
+        res.observe((key, stats["displays"], [(b[0], b[1], b[2]) for b in bad]))
+        res.facts["show:%s" % problem] += 1
+        res.facts["show-backend:%s" % backend] += 1
+        res.facts["show-fixed:%s" % bool(fix)] += 1
+        res.facts["displays"] += stats["displays"]
+        res.facts["fitted-displays"] += stats["fitted_displays"]
+        res.facts["do_fit-return-values"] += stats["returned"]
+        res.facts["do_fit-return-values-after-loaded-results"] += stats["returned_loaded"]
+        res.facts["asymmetric-first-requests"] += stats["first_requests"]
+        for k, n in stats["first_by"].items():
+            res.facts["asymmetric-first-request-by:" + k] += n
+        res.facts["report-lines-with-visibly-asymmetric-uncertainties" + (":multi" if is_multi(problem) else "")] += stats["asym_visible"]
+        res.facts["multi-fit-displays"] += stats["multi_displays"]
+        res.facts["member-displays"] += stats["member_displays"]
+        res.outcomes[("show", problem, backend, "fixed" if fix else "free", seqname, "MISMATCH" if bad else "ok")] += 1
+        hist = dict(kind="show", problem=problem, backend=backend, v=v, fix=bool(fix), sequence=seqname, order=order)
+        seen = set()
+        for si, what, obs, exp, act, mode in bad:
+            if (what, obs) in seen:
+                continue
+            seen.add((what, obs))
+            sig = "show|%s|%s|%s|%s|%s" % (problem, backend, "fixed" if fix else "free", ";".join(SEQUENCES[seqname][: si + 1]), what)
+            res.violation(sig, hist, obs, exp, act, mode, extra=dict(step=si, display=what))
+    res.sample(dict(kind="show", problem=problem, backend=backend, valuation=v, fixed_last_parameter=bool(fix), cases=["%s/%s" % c for c in cases(problem, backend, fix, tier)]))
 
 
 # ----------------------------------------------------------------------------------------------------------------------
@@ -699,8 +977,10 @@ def jobs(tier, seed):
     vals = [v] if tier == "quick" else [0, 1, 2]
     specs = []
     for vv in vals:
-        for problem in PROBLEMS:
+        for problem in PROBLEMS + MULTI_PROBLEMS:
             for backend in ("scipy", "iminuit"):
+                if tier == "quick" and backend == "scipy" and is_multi(problem) and problem not in QUICK_SCIPY_MULTI:
+                    continue  # scipy needs 2-5 s per multi-fit job: two of the four multi-fit problems in the quick tier
                 for fix in (False, True):
                     specs.append(("show", problem, backend, vv, fix, tier))
     fv = v if tier == "quick" else 3  # the formatter grid is the same in every valuation up to two extra mantissas (thorough: all of them)
@@ -723,8 +1003,20 @@ def bound(tier, seed):
     return (
         "get_formatted: %d uncertainty mantissas x exponents -6..6 x (0 and +- the same set) values x n in {1,2,3} x {plain, LaTeX}, complete; exponents +-9, +-10, +-11, +-20, +-100 with the values of the same and the next three decades; "
         "asymmetric pairs (equal, same decade, up to %d decades apart, both orientations) x %d values x n x {plain, LaTeX}; fixed flag x all values; "
-        "displays: %d problems x 2 backends x {free, last parameter fixed} x %d moment sequences x 2 display orders, valuation(s) %s"
-        % (len(mantissas((seed % 3) if tier == "quick" else 3)), 1 if tier == "quick" else 2, len(asym_values(0, tier)), len(PROBLEMS), len(seq_names(tier)), (seed % 3) if tier == "quick" else "0,1,2")
+        "displays: (%d single fits + %d multi-fits, each multi-fit and each of its members a displayed object) x 2 backends x {free, last parameter fixed} x %d moment sequences "
+        "(return value of every do_fit judged; asymmetric uncertainties first requested by an earlier access / do_fit / the display itself; results loaded -> change -> refit; "
+        "multi-fits: the %d sequences without from_file) x 2 display orders (3 where the display is the first requester), valuation(s) %s%s"
+        % (
+            len(mantissas((seed % 3) if tier == "quick" else 3)),
+            1 if tier == "quick" else 2,
+            len(asym_values(0, tier)),
+            len(PROBLEMS),
+            len(MULTI_PROBLEMS),
+            len(seq_names(tier)),
+            len([q for q in seq_names(tier) if "reload" not in SEQUENCES[q]]),
+            (seed % 3) if tier == "quick" else "0,1,2",
+            "; sequences whose new element is the return value of do_fit in one display order; scipy: multi-fits " + "/".join(QUICK_SCIPY_MULTI) + " only, asymmetric uncertainties only for " + ", ".join("%s: %s" % (k, "/".join(t)) for k, t in sorted(QUICK_SCIPY_ASYM.items())) if tier == "quick" else "",
+        )
     )
 
 
@@ -760,7 +1052,13 @@ def replay(history):
 
 
 def vacuity_guards(tot, tier):
-    yield "all six problems displayed", all(tot.facts.get("show:" + p, 0) > 0 for p in PROBLEMS)
+    yield "all six single-fit problems and all four multi-fit problems displayed", all(tot.facts.get("show:" + p, 0) > 0 for p in PROBLEMS + MULTI_PROBLEMS)
+    yield "more than 200 displays of multi-fits and more than 300 of their members parsed back", tot.facts.get("multi-fit-displays", 0) > 200 and tot.facts.get("member-displays", 0) > 300
+    yield "more than 300 return values of do_fit judged, more than 50 of them of fits that carried loaded results", tot.facts.get("do_fit-return-values", 0) > 300 and tot.facts.get("do_fit-return-values-after-loaded-results", 0) > 50
+    yield "each display was the first requester of the asymmetric uncertainties (fit: report, preface, dict; multi-fit: report, dict)", all(
+        tot.facts.get("asymmetric-first-request-by:" + k, 0) > 0 for k in ("report", "preface", "dict", "M.report", "M.dict")
+    )
+    yield "reports of fits and of multi-fits with visibly different upper and lower uncertainties were judged", tot.facts.get("report-lines-with-visibly-asymmetric-uncertainties", 0) > 0 and tot.facts.get("report-lines-with-visibly-asymmetric-uncertainties:multi", 0) > 0
     yield "both backends and both fixed settings displayed", all(tot.facts.get(k, 0) > 0 for k in ("show-backend:iminuit", "show-backend:scipy", "show-fixed:True", "show-fixed:False"))
     yield "more than 300 displays of fitted states parsed back", tot.facts.get("fitted-displays", 0) > 300
     yield "uncertainties whose rounding carries into the next decade were formatted", tot.facts.get("carry-uncertainties", 0) > 50
